@@ -4,12 +4,17 @@ import (
 	"golang.org/x/tools/go/ssa"
 )
 
-// writeTracker classifies stores performed while tracking is on (C10): a
-// store is "shared" unless its target was allocated after tracking started.
+// writeTracker classifies writes performed while tracking is on (C10): a
+// write is "shared" unless its target cell was allocated after tracking
+// started (locals, new(...), make([]T), append growth, make(map)) or derived
+// from such a cell by FieldAddr/IndexAddr. Shared writes made while the
+// current goroutine holds a mutex are reported separately.
 type writeTracker struct {
-	fresh  map[*value]bool
-	Shared []string
-	Total  int
+	fresh     map[*value]bool
+	freshMaps map[*omap]bool
+	Shared    []string
+	Locked    []string
+	Total     int
 }
 
 func (ex *Exec) noteAlloc(addr *value) {
@@ -17,13 +22,72 @@ func (ex *Exec) noteAlloc(addr *value) {
 		ex.track.fresh[addr] = true
 	}
 }
-func (ex *Exec) noteStore(fr *frame, instr *ssa.Store, addr *value) {}
-func (ex *Exec) noteWrite(fr *frame, instr ssa.Instruction, what string) {}
+
+func (ex *Exec) noteFreshSlice(s []value) {
+	if ex != nil && ex.track != nil {
+		s = s[:cap(s)]
+		for i := range s {
+			ex.track.fresh[&s[i]] = true
+		}
+	}
+}
+
+func (ex *Exec) noteDerived(base, derived *value) {
+	if ex != nil && ex.track != nil && ex.track.fresh[base] {
+		ex.track.fresh[derived] = true
+	}
+}
+
+func (ex *Exec) heldLock() bool {
+	for _, m := range ex.sched.mus {
+		if (m.locked && m.owner == ex.sched.cur.id) || m.readers > 0 {
+			return true
+		}
+	}
+	return false
+}
+
+func (ex *Exec) noteStore(fr *frame, instr *ssa.Store, addr *value) {
+	if ex == nil || ex.track == nil {
+		return
+	}
+	ex.track.Total++
+	if ex.track.fresh[addr] {
+		return
+	}
+	where := fr.fn.String() + " at " + trimPath(ex.I.prog.Fset.Position(instr.Pos()).String())
+	if ex.heldLock() {
+		ex.track.Locked = append(ex.track.Locked, where)
+		return
+	}
+	ex.track.Shared = append(ex.track.Shared, "store in "+where)
+	ex.Note("shared-write", "store in "+where)
+}
+
+func (ex *Exec) noteWrite(fr *frame, instr ssa.Instruction, what string) {
+	if ex == nil || ex.track == nil {
+		return
+	}
+	ex.track.Total++
+	if mu, ok := instr.(*ssa.MapUpdate); ok {
+		if m, ok := fr.get(mu.Map).(*omap); ok && ex.track.freshMaps[m] {
+			return
+		}
+	}
+	where := fr.fn.String() + " at " + trimPath(ex.I.prog.Fset.Position(instr.Pos()).String())
+	if ex.heldLock() {
+		ex.track.Locked = append(ex.track.Locked, where)
+		return
+	}
+	ex.track.Shared = append(ex.track.Shared, what+" update in "+where)
+	ex.Note("shared-write", what+" update in "+where)
+}
 
 func vfTrackWrites(fr *frame, args []value) value {
 	ex := fr.i.ex
+	ex.impure("vfTrackWrites")
 	if args[0].(bool) {
-		ex.track = &writeTracker{fresh: map[*value]bool{}}
+		ex.track = &writeTracker{fresh: map[*value]bool{}, freshMaps: map[*omap]bool{}}
 	} else {
 		ex.track = nil
 	}
